@@ -80,6 +80,11 @@ var Actions = []Action{
 	{"csvout", `print "a,b", "c\"d", 1.5, "p q"`, "obs"},
 	{"deep", `print "deep", depth(deepn + 0)`, "obs ends"},
 	{"loop", `{ for (i = 0; i < 2500; i++) x += i; print "loop", x }`, "obs"},
+	// number <-> string conversions of the same few numbers in every run (a conversion remembered
+	// from an earlier run, or made under an earlier run's CONVFMT/OFMT, shows here)
+	{"numstr", `{ nsv = 3.14159265; nsw = nsv ""; nsA[nsv] = 1; for (nsk in nsA) print "numstr", nsw, nsk, (0.1 + 0.2) "", 1e6 / 7 ""; delete nsA }`, "obs"},
+	{"pnum", `print "pnum", 3.14159265, 2 / 3, 100 / 3`, "obs"},
+	{"strnum", `print "strnum", "3.0" + 0, "1e3" * 1, " 12 " + 1, ("10" < "9"), ("10" + 0 < "9" + 0)`, "obs"},
 	// --- endings
 	{"exit3", `exit 3`, "ends"},
 	{"exit0", `exit`, "ends"},
